@@ -608,6 +608,19 @@ func (c *FnCtx) instrMods(in ssa.Instruction, locals map[*ssa.Alloc]bool, heaps 
 		k, _ := g.elemHeapKey(x.Type().Underlying().(*types.Slice).Elem())
 		heaps[k] = true
 		heaps[nextKey] = true
+	case *ssa.Next:
+		if rng, ok := x.Iter.(*ssa.Range); ok && !x.IsString {
+			if mt, isMap := rng.X.Type().Underlying().(*types.Map); isMap {
+				k := seenKey(rng)
+				g.heapSorts[k] = arraySort(g.u.sortOf(mt.Key()), SBool)
+				heaps[k] = true
+			}
+		}
+	case *ssa.Send, *ssa.Select:
+		g.heapSorts["GH_Sent"] = SBool
+		heaps["GH_Sent"] = true
+		g.heapSorts[ctxDoneKey] = arraySort(SInt, SBool)
+		heaps[ctxDoneKey] = true
 	case *ssa.MakeChan:
 		heaps[nextKey] = true
 	case *ssa.Call, *ssa.Defer, *ssa.Go:
